@@ -67,9 +67,10 @@ func runHistory(c *lib.Ctx, seed int64, steps, maxLen int) []hevent {
 		return e
 	}
 	evs := []hevent{mk(hevent{O: op{Op: "Reset"}})}
-	next := 1 // written values: small numbers that seldom continue a run
-	for s := 0; s < steps; s++ {
+	next := 1                    // written values: small numbers that seldom continue a run
+	for s := 0; s < steps; s++ { // Drop events are not counted as steps
 		if len(live) > maxLive {
+			s--
 			k := rng.Intn(len(live))
 			live = append(live[:k:k], live[k+1:]...)
 			kinds = append(kinds[:k:k], kinds[k+1:]...)
